@@ -131,7 +131,42 @@ def h_roundtrip(rp):
     return _common(rp, [x], call, clauses, [x])
 
 
-HANDLERS = [("types.Artifact.__eq__", h_eq), ("corpus.parse_nb_string.nb_str", h_roundtrip),
+def h_reglan(rp):
+    import ctparse.rule as R
+    a = rp["args"]
+    rr = R._regex[a["pid"]]
+    w = a["word"]
+    m = rr.fullmatch(w)
+    out = {"func": rp["func"], "clause": rp["clause"], "word": w, "fullmatch": m is not None}
+    if m is None:
+        # the RegLan model drops look-arounds; try the word in a neutral context
+        for ctx in (w + "x", "x " + w, w + " x"):
+            for mm in rr.finditer(ctx, overlapped=True):
+                if mm.group("R%d" % a["pid"]) == w:
+                    m = mm
+                    out["context"] = ctx
+                    break
+            if m:
+                break
+    if m is None:
+        out["confirmed"] = False
+        return out
+    c = rp["clause"]
+    out["confirmed"] = {"not-nullable": w == "", "no-leading-blank": w[:1].isspace(),
+                        "no-trailing-blank": w[-1:].isspace()}.get(c, False)
+    if out["confirmed"] and c == "no-trailing-blank":
+        # user-visible effect: the span of the resolution includes the blank
+        try:
+            from ctparse.ctparse import _match_regex
+            ms = [x for x in _match_regex(w + "zzz", {a["pid"]: rr}) if x.mend - x.mstart == len(w)]
+            out["span_in_text"] = [(x.mstart, x.mend, repr((w + "zzz")[x.mstart:x.mend])) for x in ms][:2]
+        except Exception as e:
+            out["span_note"] = str(e)
+    return out
+
+
+HANDLERS = [("regex[", h_reglan),
+            ("types.Artifact.__eq__", h_eq), ("corpus.parse_nb_string.nb_str", h_roundtrip),
             ("postprocess_latent.apply_postprocessing_rules", h_postprocess),
             ("types.Time.", h_accessor), ("types.Interval.", h_accessor),
             ("rule.rule.fwrapper.wrapper", h_wrapper)]
